@@ -2,7 +2,8 @@
    Statements only. *)
 From Coq Require Import NArith List Bool.
 From PV Require Import Spec.Cfg Model.Forest Model.Table Model.LRDriver Validators.TableStruct
-  Validators.ForestSound Proofs.ForestProofs Proofs.ForestSoundProofs Proofs.LRProofs.
+  Validators.ForestSound Validators.ForestComplete Proofs.ForestProofs Proofs.ForestSoundProofs
+  Proofs.ForestCompleteProofs Proofs.LRProofs.
 Import ListNotations.
 Local Open Scope N_scope.
 
@@ -40,9 +41,34 @@ Proof.
 Qed.
 Print Assumptions C17_glr_valid.
 
+(* GLR, consume_input off, per forest: forest_complete (a boolean check run on every acyclic
+   forest the impl returns, with a chart certificate that cannot make it pass wrongly) implies
+   that EVERY derivation tree of EVERY sentence prefix -- root = start symbol, leaves tokens of
+   the oracle chained by layout only from the start position, ending anywhere in the input --
+   is, up to the spans of interior nodes, one of the trees of the forest. *)
+Theorem C17_forest_complete :
+  forall g tokok sk C toks start pos0 in_len F,
+    (forall y s e, tokok y s e = true -> In (y, s, e) toks) ->
+    forest_complete g tokok sk C toks start pos0 in_len false F = true ->
+    forall t,
+      wf_tree g t -> root_sym g t = Some (NT start) ->
+      chain_ok sk (leaves t) -> All (leaf_fine tokok) (leaves t) ->
+      match bounds (leaves t) with
+      | None => True
+      | Some (fs, le) => fs = sk pos0 /\ le <= in_len
+      end ->
+      exists t', In t' (root_trees F) /\ shape t' = shape t.
+Proof.
+  intros g tokok sk C toks start pos0 in_len F Htoks Hfc t Hw Hr Hc Hl Hb.
+  apply (forest_complete_thm g tokok sk C toks start pos0 in_len false F Htoks Hfc t Hw Hr Hc Hl).
+  destruct (bounds (leaves t)) as [[fs le]|]; [|discriminate].
+  destruct Hb as [H1 H2]. split; [exact H1|]. split; [exact H2|discriminate].
+Qed.
+Print Assumptions C17_forest_complete.
+
 (* NOT PROVED (partial; decided per generated case with certified reference derivations):
-   the forest contains EVERY derivation of EVERY sentence prefix, each once, and SyntaxError is
-   raised only if no prefix is a sentence.  Inherits KF-C02-lost-derivations and
+   that the impl's forest always passes the check (it does not: KF-C17-lost-derivations), each
+   derivation once, and SyntaxError is raised only if no prefix is a sentence.  Inherits KF-C02-lost-derivations and
    KF-C03-duplicate-packing. *)
 
 Definition gS : grammar := [mkProd 0 [NT 1]; mkProd 1 [T 0]; mkProd 1 [T 0; T 0]].
@@ -53,6 +79,13 @@ Example C17_nonvacuous :
   /\ length (root_trees F_pre) = 2%nat.
 Proof. vm_compute. split; reflexivity. Qed.
 
+Example C17_complete_nonvacuous :
+  forest_complete gS (fun y s e => (y =? 0) && (e =? s + 1)) (fun p => p)
+    [(T 0, Some (0, 1)); (T 0, Some (1, 2)); (T 0, Some (2, 3));
+     (NT 1, Some (0, 1)); (NT 1, Some (1, 2)); (NT 1, Some (2, 3)); (NT 1, Some (0, 2)); (NT 1, Some (1, 3));
+     (NT 0, Some (0, 1)); (NT 0, Some (1, 2)); (NT 0, Some (2, 3)); (NT 0, Some (0, 2)); (NT 0, Some (1, 3))]
+    [(0, 0, 1); (0, 1, 2); (0, 2, 3)] 1 0 3 false F_pre = true.
+Proof. vm_compute. reflexivity. Qed.
 (* ---- the GLR driver model (Model/GLR.v) with consume_input off ---------------------------------- *)
 From PV Require Import Model.Scan Model.Parser Model.GLR Model.ForestGraph Spec.GLRSpec
   Proofs.GLRProofs Proofs.GLRWitness.
